@@ -19,7 +19,8 @@
        checkpoint c (nearest first), desc_id l a x = "x is a or descends from a". *)
 From Coq Require Import List NArith Bool.
 From C11 Require Model ProofsTree.
-From C16 Require Import Model Base FFG Proofs.
+From C16 Require Import Model Base FFG Proofs Refine.
+From C18 Require Model Proofs.
 Import ListNotations.
 Open Scope N_scope.
 
@@ -99,3 +100,85 @@ Theorem c16_main_chain_contains_finalized :
   forall t : C11.Model.cnode, In (C11.Model.best_chain t) (C11.ProofsTree.hashes t).
 Proof. exact C11.ProofsTree.best_chain_in_hashes. Qed.
 Print Assumptions c16_main_chain_contains_finalized.
+
+(* ------------------------------------------------------------------------------------------------------------
+   The two layers connected (C16/Refine.v).  On a state s of the engine the abstract layer is instantiated with
+   parent = apar s (the stored parent of a checkpoint), height = adep s (depth in the checkpoint tree), validators
+   0..n-1, votes = avote s (the votes the engine ACCEPTED, log [adm]), root = genesis g.  repaired = mkvar true true.
+   Decidable guards on the final state:  anc_links_ok s = every accepted link goes from an ancestor to a descendant;
+   hgt_depth_ok E s = every checkpoint of depth d has height E*d;  C18's pruned_vote_free s = every accepted vote
+   still names a checkpoint of the in-memory tree.  Example Refine.guards_satisfiable: a history with two
+   branches, a justified and a finalized checkpoint satisfies them. *)
+
+(* 5. [partial: under the guard anc_links_ok, which the code does not enforce] Every checkpoint the engine marks
+   Justified / Finalized is justified / finalized in the abstract sense with respect to the votes it accepted. *)
+Theorem c16_engine_refines_partial :
+  forall (n E local g : N) (evs : list event),
+    restart_free evs = true ->
+    let s := run (mkvar true true) n E local g evs in
+    anc_links_ok s = true ->
+    forall c, In c (cks s) ->
+      (C17.Model.is_jf (c_st c) = true -> justified N (apar s) (avals n) (avote s) g (c_id c)) /\
+      (c_st c = Finalized -> finalized N (apar s) (avals n) (avote s) g (c_id c)).
+Proof.
+  intros n E local g evs Hr s Ha c Hc. split.
+  - exact (engine_refines_justified n E local g evs Hr Ha c Hc).
+  - exact (engine_refines_finalized n E local g evs Hr Ha c Hc).
+Qed.
+Print Assumptions c16_engine_refines_partial.
+
+(* 6. End to end, accountable safety of the ENGINE: two checkpoints it finalizes that are not on one chain make
+   more than n/3 validators slashable BY VOTES THE ENGINE ACCEPTED (a pair with equal target height and different
+   targets, or a nested pair). *)
+Theorem c16_engine_accountable_safety :
+  forall (n E local g : N) (evs : list event),
+    restart_free evs = true ->
+    let s := run (mkvar true true) n E local g evs in
+    anc_links_ok s = true -> 0 < E -> hgt_depth_ok E s = true ->
+    forall a b, In a (cks s) -> In b (cks s) -> c_st a = Finalized -> c_st b = Finalized ->
+      c_id a <> c_id b /\ ~ In (c_id a) (c_anc b) /\ ~ In (c_id b) (c_anc a) ->
+      exists l, NoDup l /\ incl l (avals n) /\ (3 * length l > N.to_nat n)%nat /\
+        forall v, In v l ->
+          exists e1 e2, In e1 (adm s) /\ In e2 (adm s) /\ vt_key e1 = N.of_nat v /\ vt_key e2 = N.of_nat v /\
+                        (C18.Model.double_vote e1 e2 = true \/ C18.Model.nested e1 e2 = true).
+Proof. intros n E local g evs Hr s Ha HE Hh. exact (engine_accountable_safety n E local g evs Hr Ha HE Hh). Qed.
+Print Assumptions c16_engine_accountable_safety.
+
+(* 7. ... and since the engine accepts no such pair (C18: c18_no_double_votes, c18_span_holds_outside under its
+   guard), it never finalizes two conflicting checkpoints.  (In restart-free histories theorem 3 gives the same
+   conclusion from the pruning of the tree alone; this derivation goes through the votes and is the one that
+   survives when finalized blocks are learnt from other nodes.) *)
+Theorem c16_engine_no_conflicting_finalized :
+  forall (n E local g : N) (evs : list event),
+    restart_free evs = true ->
+    let s := run (mkvar true true) n E local g evs in
+    anc_links_ok s = true -> 0 < E -> hgt_depth_ok E s = true -> C18.Model.pruned_vote_free s = true ->
+    forall a b, In a (cks s) -> In b (cks s) -> c_st a = Finalized -> c_st b = Finalized ->
+      ~ (c_id a <> c_id b /\ ~ In (c_id a) (c_anc b) /\ ~ In (c_id b) (c_anc a)).
+Proof. intros n E local g evs Hr s Ha HE Hh Hp. exact (engine_no_conflicting_finalized n E local g evs Hr Ha HE Hh Hp). Qed.
+Print Assumptions c16_engine_no_conflicting_finalized.
+
+(* 8. Without the ancestor guard the refinement FAILS (restart-free witness Refine.wit_cross_link: a4 justified on
+   branch A, block b8 on branch B carries the link a4 -> b8 signed by three validators): the engine marks b8
+   Justified, abstractly it is not - nothing in the code checks that a link's source is an ancestor of its target. *)
+Theorem c16_refinement_refuted_without_ancestor_guard :
+  let s := run (mkvar true true) 4 4 0 0 wit_cross_link in
+  restart_free wit_cross_link = true /\ anc_links_ok s = false /\
+  (exists c, In c (cks s) /\ c_id c = 13 /\ c_st c = Justified) /\
+  ~ justified N (apar s) (avals 4) (avote s) 0 13.
+Proof. exact refinement_refuted_without_ancestor_guard. Qed.
+Print Assumptions c16_refinement_refuted_without_ancestor_guard.
+
+(* 9. ... and together with the regressed finalized pointer (theorem c16_monotone_refuted_restart) SAFETY fails:
+   after a legitimate restart two checkpoints that are not on one chain are both Finalized although no accepted
+   pair of votes breaks a commandment (witness Refine.wit_conflict, replayed on the real node by the harness:
+   known finding C16-conflicting-finalized-after-restart). *)
+Theorem c16_conflicting_finalized_after_restart :
+  let s := run (mkvar true true) 4 4 99 0 wit_conflict in
+  legit (mkvar true true) 4 4 99 0 (init 0) wit_conflict = true /\
+  has_conflicting_finalized s = true /\
+  C18.Proofs.has_double (adm s) = false /\ C18.Proofs.has_nested (adm s) = false /\
+  map (fun c => (c_id c, c_st c)) (cks s) =
+    [(0, Finalized); (4, Finalized); (8, Justified); (15, Unjustified); (19, Unjustified); (23, Finalized); (27, Justified)].
+Proof. exact conflicting_finalized_after_restart. Qed.
+Print Assumptions c16_conflicting_finalized_after_restart.
